@@ -200,6 +200,10 @@ type Action struct {
 
 	// inline API
 	InlineID int `json:"inline_id,omitempty"`
+	// Nested (inline-sub): the first time this subscription's handler is called, it subscribes NestedID to NestedFilter
+	// from inside the call, i.e. while the broker is delivering a message (a subscription made during a publish)
+	NestedID     int    `json:"nested_id,omitempty"`
+	NestedFilter string `json:"nested_filter,omitempty"`
 
 	// burst: several clients publish at the same time (all packets are handed to the broker before it is allowed to
 	// settle, so their handlers really run concurrently)
@@ -288,6 +292,15 @@ type Obs struct {
 	P    *refmqtt.Packet
 }
 
+// NestedSub records a subscription that was made from inside an inline handler, while message Tag was being delivered.
+type NestedSub struct {
+	ID     int
+	Filter string
+	Step   int
+	Tag    int
+	Err    string
+}
+
 type InlineCall struct {
 	ID       int
 	Filter   string
@@ -333,6 +346,7 @@ type Run struct {
 	tagSeq    int
 	inlineMu  sync.Mutex
 	inline    []InlineCall
+	NestedAt  []NestedSub
 	cur       int
 	StartedAt int64
 	HookLog   []HookCall
@@ -757,11 +771,32 @@ func (r *Run) Do(a Action) *Step {
 		}
 	case "inline-sub":
 		id, filter := a.InlineID, a.Filters[0].Filter
-		err := r.B.S.Subscribe(filter, id, func(cl *mqtt.Client, sub packets.Subscription, pk packets.Packet) {
-			r.inlineMu.Lock()
-			r.inline = append(r.inline, InlineCall{ID: id, Filter: sub.Filter, Topic: pk.TopicName, Tag: TagOf(pk.Payload), Retained: pk.FixedHeader.Retain, Step: r.cur})
-			r.inlineMu.Unlock()
-		})
+		record := func(id int) mqtt.InlineSubFn {
+			return func(cl *mqtt.Client, sub packets.Subscription, pk packets.Packet) {
+				r.inlineMu.Lock()
+				r.inline = append(r.inline, InlineCall{ID: id, Filter: sub.Filter, Topic: pk.TopicName, Tag: TagOf(pk.Payload), Retained: pk.FixedHeader.Retain, Step: r.cur})
+				r.inlineMu.Unlock()
+			}
+		}
+		handler := record(id)
+		if a.NestedID > 0 {
+			var once sync.Once
+			nid, nf := a.NestedID, a.NestedFilter
+			handler = func(cl *mqtt.Client, sub packets.Subscription, pk packets.Packet) {
+				record(id)(cl, sub, pk)
+				once.Do(func() {
+					r.inlineMu.Lock()
+					r.NestedAt = append(r.NestedAt, NestedSub{ID: nid, Filter: nf, Step: r.cur, Tag: TagOf(pk.Payload)})
+					r.inlineMu.Unlock()
+					if err := r.B.S.Subscribe(nf, nid, record(nid)); err != nil {
+						r.inlineMu.Lock()
+						r.NestedAt[len(r.NestedAt)-1].Err = err.Error()
+						r.inlineMu.Unlock()
+					}
+				})
+			}
+		}
+		err := r.B.S.Subscribe(filter, id, handler)
 		if err != nil {
 			s.Err = err.Error()
 		}
